@@ -95,6 +95,12 @@ type DevCfg struct {
 	// library (or the caller) no longer references at that instant is gone
 	// when the bytes arrive.
 	GC int `json:"gc,omitempty"`
+
+	// Reenter: the reader itself uses the library while the caller waits in
+	// Read (an entropy source that authenticates what it fetches; a wrapper
+	// that logs a signed record).  The device only announces it; the world
+	// that owns the device decides what the reader does (Device.Yield).
+	Reenter bool `json:"reenter,omitempty"`
 }
 
 // StdKinds is the number of values Std takes (0 = the device itself).
@@ -381,6 +387,9 @@ func (c DevCfg) Summary() string {
 	}
 	if c.GC > 0 {
 		s += fmt.Sprintf(" gc-x%d-inside-first-read", c.GC)
+	}
+	if c.Reenter {
+		s += " reader-signs-with-another-key-inside-first-read"
 	}
 	if c.ErrAt >= 0 {
 		k := [...]string{"?", "EOF", "ErrUnexpectedEOF", "custom", "temporary", "PANIC"}[c.ErrKind]
